@@ -61,22 +61,28 @@ Proof.
 Qed.
 
 (* ... and has_specification marks the same set of labels verified in both (the keys of
-   the pruned dictionary).  NOT covered by a theorem: that the equivalence database ends
+   the pruned dictionary) - again for every order and multiplicity (ksr, kse) in which the
+   memory-saving SET may be iterated.  (Audit: the earlier form compared the pruned dictionaries of
+   r_keys B and d_keys A only; these two LISTS are equal by theorem 1, so that form said no more
+   than "pruned_dict is defined".)  NOT covered by a theorem: that the equivalence database ends
    in the same observable state when those set_verified calls arrive in another order
    (dict iteration order differs between the two databases) - this is C06's component;
    the harness compares is_verified after has_specification() on the real databases. *)
-Theorem C14_has_specification_marks_same_labels : forall (T : table) (d0 : cdbT) (h : list hop) rep root iterative,
+Theorem C14_has_specification_marks_same_labels :
+  forall (T : table) (d0 : cdbT) (h : list hop) rep root iterative ksr kse,
   let A := dict_run T (dict_init d0) h in
   let B := rec_run T (rec_init d0) h in
+  (forall k, In k ksr <-> In k (r_keys (b_r rstore_t B))) ->
+  (forall k, In k kse <-> In k (r_keys (b_e rstore_t B))) ->
   exists pa pb,
     Tree.Model.pruned_dict rep (d_keys (b_r dstore A) ++ d_keys (b_e dstore A)) root iterative = Some pa /\
-    Tree.Model.pruned_dict rep (r_keys (b_r rstore_t B) ++ r_keys (b_e rstore_t B)) root iterative = Some pb /\
+    Tree.Model.pruned_dict rep (ksr ++ kse) root iterative = Some pb /\
     forall l, Tree.Model.has_key pa l = Tree.Model.has_key pb l.
 Proof.
-  intros T d0 h rep root it A B.
+  intros T d0 h rep root it ksr kse A B H1 H2.
   pose proof (run_sim T h _ _ (simdb_init d0)) as (_ & Hr & He & _). fold A B in Hr, He.
-  rewrite (sim_keys _ _ Hr), (sim_keys _ _ He).
-  apply pruned_keys_set_invariant. tauto.
+  apply pruned_keys_set_invariant.
+  intros k. rewrite !in_app_iff, H1, H2, (sim_keys _ _ Hr), (sim_keys _ _ He). tauto.
 Qed.
 
 (* 2. contains(start, ends) is true exactly when (start, sorted(ends)) is a stored key -
@@ -322,6 +328,314 @@ Proof.
   unfold WF; simpl. split; [reflexivity|split; [reflexivity|]].
   repeat constructor; simpl; intuition discriminate.
 Qed.
+
+(* ------------------------------------------------------------------------
+   NON-VACUITY (audit): every theorem of this file APPLIED to concrete instances: the table nv_table
+   (3 strategies: verification, possibly_empty, two-way) with the 4-step history nv_hist, and the
+   foreign-parent table fp_table of the open finding. *)
+Definition nvA := dict_run nv_table (dict_init nv_cdb) nv_hist.
+Definition nvB := rec_run nv_table (rec_init nv_cdb) nv_hist.
+Definition nv_pack : list Z := [1; 0; 2].
+(* the class database after 1 event and at the end of the history (computed) *)
+Definition nvd1 : cdbT := mk [0; 1; 2; 3] [(0, 0); (1, 1); (2, 2); (3, 3)] [None; Some false; Some true; None] 2.
+Definition nvd : cdbT := mk [0; 1; 2; 3] [(0, 0); (1, 1); (2, 2); (3, 3)] [None; Some false; Some true; Some false] 3.
+Example nvd1_is : b_cdb rstore_t (rec_run nv_table (rec_init nv_cdb) (firstn 1 nv_hist)) = nvd1.
+Proof. vm_compute; reflexivity. Qed.
+Example nvd_is : b_cdb rstore_t nvB = nvd /\ b_cdb dstore nvA = nvd.
+Proof. split; vm_compute; reflexivity. Qed.
+
+Ltac wf_concrete :=
+  unfold WF; simpl; split; [reflexivity|split; [reflexivity|]];
+  repeat constructor; simpl; intuition discriminate.
+Lemma WF_nv_cdb : WFd nv_cdb. Proof. wf_concrete. Qed.
+Lemma WF_nvd1 : WFd nvd1. Proof. wf_concrete. Qed.
+Lemma WF_nvd : WFd nvd. Proof. wf_concrete. Qed.
+Lemma WF_fp_cdb : WFd fp_cdb. Proof. wf_concrete. Qed.
+Ltac known_concrete :=
+  intros l Hl; simpl in Hl;
+  repeat (destruct Hl as [<-|Hl]; [split; [apply Z.leb_le|apply Z.ltb_lt]; vm_compute; reflexivity|]);
+  destruct Hl.
+Ltac emptyok_concrete :=
+  intros i k b H1 H2;
+  do 5 (try (destruct i as [|i]; [simpl in H1, H2; try discriminate;
+                                  injection H1 as <-; injection H2 as <-; reflexivity|]));
+  destruct i; discriminate.
+Lemma EOK_nvd1 : EmptyOK (fun k : Z => k) (oracle nv_table) nvd1. Proof. emptyok_concrete. Qed.
+Lemma EOK_nvd : EmptyOK (fun k : Z => k) (oracle nv_table) nvd. Proof. emptyok_concrete. Qed.
+
+(* covers C14_same_keys_same_answers: the memory-saving store iterated in ANOTHER order and with a
+   duplicate gives the same has_specification answer as the dict store; and the two stores hold the
+   same (non-empty) key lists *)
+Example C14_same_keys_same_answers_nonvacuous :
+  let rep := fun l => if l =? 1 then 0 else l in
+  db_has_spec rep [(3, []); (1, [3; 3]); (3, [])] [(1, [0])] 0 false =
+  db_has_spec rep (d_keys (b_r dstore nvA)) (d_keys (b_e dstore nvA)) 0 false /\
+  r_keys (b_r rstore_t nvB) = d_keys (b_r dstore nvA) /\ d_keys (b_r dstore nvA) = [(1, [3; 3]); (3, [])] /\
+  rec_contains nvB 1 [3; 3] = dict_contains nvA 1 [3; 3].
+Proof.
+  destruct (C14_same_keys_same_answers nv_table nv_cdb nv_hist) as (H1 & _ & _ & _ & _ & _ & _ & _ & H9 & H10).
+  intros rep. split; [|split; [exact H1|split; [vm_compute; reflexivity|apply H9]]].
+  apply H10; intros k; vm_compute; tauto.
+Qed.
+
+(* covers C14_contains: a stored pair (asked with unsorted ends) and a superseded one *)
+Example C14_contains_nonvacuous :
+  In (1, isort [3; 3]) (r_keys (b_r rstore_t nvB) ++ r_keys (b_e rstore_t nvB)) /\
+  In (3, isort []) (d_keys (b_r dstore nvA) ++ d_keys (b_e dstore nvA)) /\
+  ~ In (0, isort [1]) (r_keys (b_r rstore_t nvB) ++ r_keys (b_e rstore_t nvB)).
+Proof.
+  split; [|split].
+  - apply (proj2 (C14_contains nv_table nv_cdb nv_hist 1 [3; 3])). vm_compute; reflexivity.
+  - apply (proj1 (C14_contains nv_table nv_cdb nv_hist 3 [])). vm_compute; reflexivity.
+  - intros H. apply (proj2 (C14_contains nv_table nv_cdb nv_hist 0 [1])) in H. vm_compute in H. discriminate.
+Qed.
+
+(* covers C14_recompute_reproduces: the equivalence store, asked for the two-way key (1, (0,)), hands
+   back strategy 2 on class 1 *)
+Lemma nv_known_10 : labels_known nvd (1, [0]). Proof. known_concrete. Qed.
+Lemma nv_known_133 : labels_known nvd (1, [3; 3]). Proof. known_concrete. Qed.
+Example C14_recompute_reproduces_nonvacuous :
+  let d' := fst (rec_getitem nv_table nv_pack true (b_e rstore_t nvB) nvd (1, [0])) in
+  reproduces nv_table d' 2 (1, [0]) = true /\ r_mem (1, [0]) (b_e rstore_t nvB) = true /\
+  (exists r, is_cand nv_table nvd nv_pack (1, [0]) r /\ r_sid r = 2 /\ r_parent r = 1 /\
+             (true = true -> r_two_way nv_table r = true)) /\
+  lbl d' 1 = Some (fst (1, [0])).
+Proof.
+  apply (C14_recompute_reproduces nv_table nv_pack true (b_e rstore_t nvB) nvd (1, [0]) _ 2 1 WF_nvd nv_known_10).
+  vm_compute; reflexivity.
+Qed.
+
+(* covers C14_recompute_succeeds: same key, the candidate is the rule of strategy 2 on class 1 *)
+Example C14_recompute_succeeds_nonvacuous :
+  exists d' sid p, rec_getitem nv_table nv_pack true (b_e rstore_t nvB) nvd (1, [0]) = (d', GOk sid p).
+Proof.
+  apply (C14_recompute_succeeds nv_table nv_pack true (b_e rstore_t nvB) nvd (1, [0]) (mkR 2 1 RPlain)
+           WF_nvd nv_known_10).
+  - vm_compute; reflexivity.
+  - exists 1, 1, 2. split; [left; reflexivity|]. split; [reflexivity|]. split; [vm_compute; auto|].
+    vm_compute. left; reflexivity.
+  - vm_compute; reflexivity.
+  - intros _. vm_compute; reflexivity.
+Qed.
+(* ... for the plain store and a possibly_empty rule with a repeated child *)
+Example C14_recompute_succeeds_nonvacuous_plain :
+  exists d' sid p, rec_getitem nv_table nv_pack false (b_r rstore_t nvB) nvd (1, [3; 3]) = (d', GOk sid p).
+Proof.
+  apply (C14_recompute_succeeds nv_table nv_pack false (b_r rstore_t nvB) nvd (1, [3; 3]) (mkR 1 1 RPlain)
+           WF_nvd nv_known_133).
+  - vm_compute; reflexivity.
+  - exists 1, 1, 1. split; [left; reflexivity|]. split; [reflexivity|]. split; [vm_compute; auto|].
+    vm_compute. left; reflexivity.
+  - vm_compute; reflexivity.
+  - discriminate.
+Qed.
+
+(* covers C14_recompute_outcomes, all three possible outcomes: GOk (stored key), GKeyError (the
+   superseded key (0, (1,))), GFail (the foreign-parent key of the open finding) *)
+Lemma nv_known_01 : labels_known nvd (0, [1]). Proof. known_concrete. Qed.
+Definition fpB := rec_add fp_table (rec_init fp_cdb) 1 [2] (mkR 0 1 RPlain).
+Lemma fp_known_12 : labels_known fp_cdb (1, [2]). Proof. known_concrete. Qed.
+Example C14_recompute_outcomes_nonvacuous :
+  r_mem (1, [3; 3]) (b_r rstore_t nvB) = true /\
+  r_mem (0, [1]) (b_r rstore_t nvB) = false /\
+  (r_mem (1, [2]) (b_e rstore_t fpB) = true /\
+   forall r, is_cand fp_table fp_cdb [1] (1, [2]) r ->
+             ~ (key_of_rule fp_table fp_cdb r = Some (1, [2]) /\ (true = true -> r_two_way fp_table r = true))).
+Proof.
+  split; [|split].
+  - apply (C14_recompute_outcomes nv_table nv_pack false (b_r rstore_t nvB) nvd (1, [3; 3]) nvd (GOk 1 1)
+             WF_nvd nv_known_133). vm_compute; reflexivity.
+  - apply (C14_recompute_outcomes nv_table nv_pack false (b_r rstore_t nvB) nvd (0, [1]) nvd GKeyError
+             WF_nvd nv_known_01). vm_compute; reflexivity.
+  - apply (C14_recompute_outcomes fp_table [1] true (b_e rstore_t fpB) fp_cdb (1, [2]) fp_cdb GFail
+             WF_fp_cdb fp_known_12). vm_compute; reflexivity.
+Qed.
+
+(* covers C14_lookup_side_effects: a lookup that DOES change the class database (it fills the
+   emptiness cache of class 3): the database only grows and the known classes keep label and answer *)
+Lemma nv_known_133' : labels_known nv_cdb (1, [3; 3]). Proof. known_concrete. Qed.
+Example C14_lookup_side_effects_nonvacuous :
+  let d' := fst (rec_getitem nv_table nv_pack false [[1; 3; 3]] nv_cdb (1, [3; 3])) in
+  d' <> nv_cdb /\
+  WFd d' /\ extends nv_cdb d' /\
+  (forall c l, lbl nv_cdb c = Some l -> lbl d' c = Some l /\ empv nv_table d' c = empv nv_table nv_cdb c).
+Proof.
+  intros d'. split; [vm_compute; discriminate|].
+  apply (C14_lookup_side_effects nv_table nv_pack false [[1; 3; 3]] nv_cdb (1, [3; 3]) d' (GOk 1 1)
+           WF_nv_cdb nv_known_133').
+  vm_compute; reflexivity.
+Qed.
+
+(* covers C14_dict_add_reproduces: RuleDB.add of  S1(0) -> (1, 2)  (class 2 empty, dropped): key (0, (1,)) *)
+Example C14_dict_add_reproduces_nonvacuous :
+  let a1 := dict_add nv_table (dict_init nv_cdb) 0 [1; 2] (mkR 1 0 RPlain) in
+  let k := stored_key nv_table nv_cdb 0 [1; 2] (mkR 1 0 RPlain) [1; 2] in
+  b_stat dstore a1 = 0 /\ pres nv_table nv_cdb (b_cdb dstore a1) /\
+  key_of_rule nv_table (b_cdb dstore a1) (mkR 1 0 RPlain) = Some k /\
+  d_get k (if in_eqv (snd k) (r_two_way nv_table (mkR 1 0 RPlain)) then b_e dstore a1 else b_r dstore a1)
+    = Some 1 /\
+  reproduces nv_table (b_cdb dstore a1) 1 k = true.
+Proof.
+  exact (C14_dict_add_reproduces nv_table (dict_init nv_cdb) 0 [1; 2] (mkR 1 0 RPlain) [1; 2]
+           (proj1 C14_nonvacuous_add_pre) (proj1 (proj2 C14_nonvacuous_add_pre))).
+Qed.
+Example C14_dict_add_reproduces_key :
+  stored_key nv_table nv_cdb 0 [1; 2] (mkR 1 0 RPlain) [1; 2] = (0, [1]).
+Proof. vm_compute; reflexivity. Qed.
+
+(* covers C14_truthful_caches_keep_answers: the class database after 1 and after 4 events of nv_hist
+   (two resp. three cached answers, all truthful) *)
+Example C14_truthful_caches_keep_answers_nonvacuous : pres nv_table nvd1 nvd.
+Proof.
+  apply (C14_truthful_caches_keep_answers nv_table nvd1 nvd WF_nvd1 WF_nvd).
+  - exists []. reflexivity.
+  - exact EOK_nvd1.
+  - exact EOK_nvd.
+Qed.
+
+(* covers C14_stored_rule_is_handed_back: RuleDBForgetStrategy.add of the same rule, then a lookup
+   THREE events later (class database nvd, a store that holds two more keys) *)
+Example C14_stored_rule_is_handed_back_nonvacuous :
+  exists d3 sid p,
+    rec_getitem nv_table nv_pack false [[1; 3; 3]; [0; 1]; [3]] nvd (0, [1]) = (d3, GOk sid p) /\
+    reproduces nv_table d3 sid (0, [1]) = true.
+Proof.
+  destruct (C14_stored_rule_is_handed_back nv_table (rec_init nv_cdb) 0 [1; 2] (mkR 1 0 RPlain) [1; 2] nv_pack 1
+              (proj1 C14_nonvacuous_add_pre)) as (_ & _ & H).
+  - right; left; reflexivity.
+  - vm_compute. left; reflexivity.
+  - change (stored_key nv_table (b_cdb rstore_t (rec_init nv_cdb)) 0 [1; 2] (mkR 1 0 RPlain) [1; 2])
+      with (stored_key nv_table nv_cdb 0 [1; 2] (mkR 1 0 RPlain) [1; 2]) in H.
+    rewrite C14_dict_add_reproduces_key in H.
+    apply (H nvd [[1; 3; 3]; [0; 1]; [3]]).
+    + replace (b_cdb rstore_t (rec_add nv_table (rec_init nv_cdb) 0 [1; 2] (mkR 1 0 RPlain))) with nvd1
+        by (vm_compute; reflexivity).
+      exact C14_truthful_caches_keep_answers_nonvacuous.
+    + vm_compute; reflexivity.
+Qed.
+Example C14_stored_rule_is_handed_back_value :
+  snd (rec_getitem nv_table nv_pack false [[1; 3; 3]; [0; 1]; [3]] nvd (0, [1])) = GOk 1 0.
+Proof. vm_compute; reflexivity. Qed.
+
+(* covers C14_repair_reproduces: the repaired lookup on the foreign-parent instance (extra label 0) *)
+Example C14_repair_reproduces_nonvacuous :
+  let d' := fst (rec_getitem_x fp_table [0] [1] true (b_e rstore_t fpB) fp_cdb (1, [2])) in
+  reproduces fp_table d' 0 (1, [2]) = true /\ r_mem (1, [2]) (b_e rstore_t fpB) = true /\
+  (exists r, is_cand_in fp_table (key_labels (1, [2]) [0]) fp_cdb [1] r /\ r_sid r = 0 /\ r_parent r = 1 /\
+             (true = true -> r_two_way fp_table r = true)) /\
+  lbl d' 1 = Some (fst (1, [2])).
+Proof.
+  apply (C14_repair_reproduces fp_table [0] [1] true (b_e rstore_t fpB) fp_cdb (1, [2]) _ 0 1 WF_fp_cdb).
+  - known_concrete.
+  - vm_compute; reflexivity.
+Qed.
+
+(* covers C14_repair_hands_back: the same instance through add *)
+Lemma fp_add_pre : add_pre fp_table fp_cdb 1 [2] (mkR 0 1 RPlain) [2].
+Proof. split; [exact WF_fp_cdb|split; [reflexivity|split; [reflexivity|repeat constructor]]]. Qed.
+Example C14_repair_hands_back_nonvacuous :
+  exists d3 sid p,
+    rec_getitem_x fp_table [0] [1] true (b_e rstore_t fpB) fp_cdb (1, [2]) = (d3, GOk sid p) /\
+    reproduces fp_table d3 sid (1, [2]) = true.
+Proof.
+  destruct (C14_repair_hands_back fp_table (rec_init fp_cdb) 1 [2] (mkR 0 1 RPlain) [2] [1] 1 0 0 fp_add_pre)
+    as (_ & _ & H).
+  - right; left; reflexivity.
+  - reflexivity.
+  - vm_compute. left; reflexivity.
+  - apply (H [0] fp_cdb (b_e rstore_t fpB)).
+    + apply pres_refl. exact WF_fp_cdb.
+    + vm_compute; reflexivity.
+    + known_concrete.
+    + vm_compute. auto.
+Qed.
+
+(* covers C14_searcher_model_uses_dict_store: the searcher state and the DictStore database both hold
+   the one-way key (0, (1,)); ruledb.add of the two-way rule  S2(1) <-> (0,)  deletes it and stores
+   (1, (0,)) as an equivalence - in both *)
+Definition nv_s : st := mkSt nvd [] [] [] [] [] [(0, [1]); (1, [3; 3])] [] [] [] Running.
+Definition nv_a : dbst dstore := mkDB dstore nvd [((0, [1]), 1); ((1, [3; 3]), 1)] [] [] [] 0.
+Example C14_searcher_model_uses_dict_store_nonvacuous :
+  let s' := base_add nv_table nv_s 1 [0] (mkR 2 1 RPlain) in
+  let a' := dict_add nv_table nv_a 1 [0] (mkR 2 1 RPlain) in
+  b_stat dstore a' = 0 /\ b_cdb dstore a' = cdb s' /\
+  d_keys (b_r dstore a') = rstore s' /\ d_keys (b_e dstore a') = estore s' /\
+  rstore s' = [(1, [3; 3])] /\ estore s' = [(1, [0])].
+Proof.
+  intros s' a'.
+  pose proof (C14_searcher_model_uses_dict_store nv_table nv_s nv_a 1 [0] (mkR 2 1 RPlain) [0]
+                eq_refl eq_refl eq_refl eq_refl eq_refl) as H.
+  cbv zeta in H. fold s' a' in H.
+  replace (running s') with true in H by (vm_compute; reflexivity).
+  destruct H as (H1 & H2 & H3 & H4).
+  split; [exact H1|split; [exact H2|split; [exact H3|split; [exact H4|split; vm_compute; reflexivity]]]].
+Qed.
+
+(* covers C14_has_specification_marks_same_labels: the set store iterated in another order, with a
+   duplicate; the pruned dictionaries are non-trivial (labels 0, 1, 3 are kept, label 2 is not) *)
+Example C14_has_specification_marks_same_labels_nonvacuous :
+  let rep := fun l => if l =? 1 then 0 else l in
+  exists pa pb,
+    Tree.Model.pruned_dict rep (d_keys (b_r dstore nvA) ++ d_keys (b_e dstore nvA)) 0 false = Some pa /\
+    Tree.Model.pruned_dict rep ([(3, []); (1, [3; 3]); (3, [])] ++ [(1, [0])]) 0 false = Some pb /\
+    forall l, Tree.Model.has_key pa l = Tree.Model.has_key pb l.
+Proof.
+  intros rep.
+  apply (C14_has_specification_marks_same_labels nv_table nv_cdb nv_hist rep 0 false
+           [(3, []); (1, [3; 3]); (3, [])] [(1, [0])]); intros k; vm_compute; tauto.
+Qed.
+Example C14_has_specification_marks_same_labels_value :
+  let rep := fun l => if l =? 1 then 0 else l in
+  match Tree.Model.pruned_dict rep ([(3, []); (1, [3; 3]); (3, [])] ++ [(1, [0])]) 0 false with
+  | Some pb => map (Tree.Model.has_key pb) [0; 2; 3] = [true; false; true]
+  | None => False
+  end.
+Proof. vm_compute. reflexivity. Qed.
+
+(* covers C14_search_states_keep_answers: a search (the table of C04's non-vacuity example: verification,
+   possibly_empty, factory with a foreign-parent rule, hidden strategy, symmetry; class 2 empty) honouring
+   both contracts, its class database after one packet (4 classes) and after two (5 classes) *)
+Definition se_table : table :=
+  mkT [0; 0; 1; 0; 0]
+      [ mkS 2 false false false false [(3, mkE [] false false [])] [];
+        mkS 0 false true true true [(0, mkE [1; 2] false true [0; 1]); (1, mkE [1] true true [0])] [];
+        mkS 1 false true true true [] [(0, [mkI 1 None false; mkI 3 (Some 1) false; mkI 3 (Some 4) true])];
+        mkS 0 false true false true [(1, mkE [3] true true [1])] [];
+        mkS 3 false false false false [(0, mkE [4] true true [0])] [] ]
+      [0] [4].
+Lemma se_pe_contract : forall sid c e,
+  entry_of se_table sid c = Some e -> pe_of se_table sid = false ->
+  forall k, In k (e_children e) -> oracle se_table k = false.
+Proof.
+  intros sid c e H Hp k Hk. unfold entry_of, pe_of, flag in *.
+  destruct (strat_of se_table sid) as [x|] eqn:Es; [|discriminate].
+  unfold strat_of in Es. destruct (sid <? 0); [discriminate|].
+  destruct (Z.to_nat sid) as [|[|[|[|[|n]]]]]; simpl in Es; try (destruct n; discriminate);
+    injection Es as <-; simpl in *; try discriminate;
+    repeat match type of H with context [if ?b then _ else _] => destruct b end; try discriminate;
+    injection H as <-; simpl in Hk; intuition; subst; reflexivity.
+Qed.
+Lemma se_sym_contract : forall sid c r c0 rest,
+  In sid (t_sym se_table) -> In r (rules_from_strategy se_table sid c) ->
+  rule_children se_table r = Some (c0 :: rest) -> oracle se_table c0 = oracle se_table c.
+Proof.
+  intros sid c r c0 rest [<-|[]]. unfold rules_from_strategy, applies, entry_of. simpl.
+  destruct c; simpl; try (intros []; fail).
+  intros [<-|[]]. vm_compute. intros [= <- <-]. reflexivity.
+Qed.
+Definition se_ans : list bool := [false; false; false; false; false; false; false; false].
+Example C14_search_states_keep_answers_nonvacuous :
+  pres se_table (cdb (run_search se_table 0 20 false true se_ans 0 [mkP 0 [1] false]))
+                (cdb (run_search se_table 0 20 false true se_ans 0 ([mkP 0 [1] false] ++ [mkP 0 [2] false]))).
+Proof.
+  apply (C14_search_states_keep_answers se_table 0 20 false true se_ans 0 se_pe_contract se_sym_contract).
+Qed.
+Example C14_search_states_keep_answers_states :
+  classes (cdb (run_search se_table 0 20 false true se_ans 0 [mkP 0 [1] false])) = [0; 4; 1; 2] /\
+  empties (cdb (run_search se_table 0 20 false true se_ans 0 [mkP 0 [1] false])) =
+    [Some false; Some false; Some false; Some true] /\
+  classes (cdb (run_search se_table 0 20 false true se_ans 0 [mkP 0 [1] false; mkP 0 [2] false])) = [0; 4; 1; 2; 3].
+Proof. repeat split; vm_compute; reflexivity. Qed.
 
 Print Assumptions C14_same_keys_same_answers.
 Print Assumptions C14_has_specification_marks_same_labels.
